@@ -4,6 +4,7 @@ and numbers convert back to the value they came from.
 -/
 import JulianVerif.Model.Text
 import JulianVerif.Model.Calendar
+import JulianVerif.Lemmas.GenLib
 namespace JV.C15
 open JV
 
@@ -152,5 +153,19 @@ theorem weekday_fromStr_sound (s : List Char) (w : Weekday) (h : Weekday.fromStr
     ∨ s.map asciiLower = w.shortName.toList.map asciiLower := by
   have := List.find?_some h
   simpa [eqIgnoreAsciiCase] using this
+
+/-! ### the conversions as GENERATED from the source -/
+
+/-- `FromStr for Month` / `for Weekday`, the names, numbers and neighbours, as bin/libgen produces them
+from lib.rs, are the model's functions the theorems above are about -/
+theorem generated_names (s : String) (m : Month) (w : Weekday) :
+    Gen.monthFromStr s = Month.fromStr s.toList ∧ Gen.weekdayFromStr s = Weekday.fromStr s.toList
+    ∧ Gen.monthName m = m.name ∧ Gen.monthShortName m = m.shortName
+    ∧ Gen.weekdayName w = w.name ∧ Gen.weekdayShortName w = w.shortName
+    ∧ Gen.monthNumber m = m.number ∧ Gen.weekdayNumber w = w.number
+    ∧ Gen.weekdayTryFromConst = Weekday.ofInt? ∧ (∀ j, Gen.weekdayForJdn j = Chk.weekdayForJdn j) :=
+  ⟨Gen.monthFromStr_eq s, Gen.weekdayFromStr_eq s, Gen.monthName_eq m, Gen.monthShortName_eq m,
+   Gen.weekdayName_eq w, Gen.weekdayShortName_eq w, Gen.monthNumber_eq m, Gen.weekdayNumber_eq w,
+   Gen.weekdayTryFromConst_eq, Gen.weekdayForJdn_eq⟩
 
 end JV.C15
